@@ -157,9 +157,9 @@ func (c *GConf) Text(device bool) string {
 }
 
 type Gen struct {
-	Rng  *rand.Rand
-	Kind string
-	uniq int
+	Rng     *rand.Rand
+	Kind    string
+	uniq    int
 	remarkN int
 	// Small universe for C14: few hosts, nets, ports.
 	Small bool
